@@ -15,6 +15,9 @@
 -/
 import RumaModel.Lemmas.EventSign
 import RumaModel.Lemmas.EventSignSize
+import RumaModel.Lemmas.EventSignCopy
+import RumaModel.Lemmas.EventSignChain
+import RumaModel.Lemmas.EventSignExamples
 import RumaModel.Props.C02
 import RumaModel.Generated.C03
 namespace Ruma.Props.C03
@@ -114,24 +117,64 @@ theorem verify_after_sign_valid (S : SigScheme) (hS : S.Lawful) (sha256 : List N
   obtain ⟨hv, _⟩ := valid_after_sign S hS sha256 keys entity kp e e' rr hsign hk h0
   exact ⟨hv, fun servers hsrv hcov => valid_verifies S sha256 hsha x keys e' rr sr hv servers hsrv hcov⟩
 
+/-- **`verify_after_sign`, any signer set**: take a fresh event (a `BTreeMap` without `signatures`)
+and let any non-empty list of servers hash and sign it one after the other (`signAllEvents`: each
+step is `hash_and_sign_event` on the previous result). If all steps succeed, every signer's public key
+is in the key map, and every server the version demands of the final event is one of the signers,
+then `verify_event` reports `All`. Induction over the list; the content hash is the same at every
+step (C05: it ignores `hashes` and `signatures`) and the redacted bytes never include `signatures`. -/
+theorem verify_after_sign_chain (S : SigScheme) (hS : S.Lawful) (sha256 : List Nat → List Nat)
+    (hsha : ∀ m, ∀ b ∈ sha256 m, b < 256) (x : Ids.Ext) (keys : KeyMap) (rr : Rules) (sr : SigRules)
+    (steps : List (Str × KeyPair)) (e e' : Obj) (hne : steps ≠ [])
+    (hfresh : FreshSorted e)
+    (hk : ∀ st ∈ steps, HasKey S keys st.1 st.2)
+    (hrun : signAllEvents S sha256 rr steps e = (.ok (), e'))
+    (servers : List Str) (hsrv : serversToCheck x e' sr = .ok servers)
+    (hcov : ∀ s ∈ servers, ∃ st ∈ steps, st.1 = s) :
+    verifyEvent S sha256 x keys e' rr sr = .ok .all := by
+  cases steps with
+  | nil => exact absurd rfl hne
+  | cons st rest =>
+    obtain ⟨entity, kp⟩ := st
+    simp only [signAllEvents] at hrun
+    cases hstep : hashAndSignEvent S sha256 entity kp e rr with
+    | mk res o1 =>
+      rw [hstep] at hrun
+      cases res with
+      | error err => simp only at hrun; cases hrun
+      | ok u =>
+        cases u
+        simp only at hrun
+        obtain ⟨hv1, sigs1, hs1, hm1, _⟩ := validSorted_step S hS sha256 keys entity kp e o1 rr hstep
+          (hk (entity, kp) (by simp)) (Or.inl hfresh)
+        obtain ⟨⟨hv2, _, _⟩, sigs2, hs2, hm2, hold2⟩ := signAll_validSorted S hS sha256 keys rr rest o1 e'
+          (fun st hst => hk st (by simp [hst])) hv1 hrun
+        refine valid_verifies S sha256 hsha x keys e' rr sr hv2 servers hsrv ?_
+        intro s hs
+        obtain ⟨st, hst, rfl⟩ := hcov s hs
+        refine ⟨sigs2, hs2, ?_⟩
+        rcases List.mem_cons.mp hst with rfl | hst
+        · exact hold2 sigs1 hs1 _ hm1
+        · exact hm2 st hst
+
 /-! ### Redacted copies -/
 
-/-- **`verify_redacted_copy`**: the redacted copy (same rules) of a valid event — in particular of
+/-- **`verify_redacted_copy`, general form**: the redacted copy (same rules) of a valid event — in particular of
 any event just hashed and signed — verifies with valid signatures (`All` or `Signatures`, never an
 error), whenever the servers the version demands *of the redacted copy* all appear in `signatures`.
 Uses C04's `redact_idempotent`: the signed bytes of the copy are those of the original.
 The side condition is discharged by `servers_of_redacted_copy` below except for invites created
 from a third-party invite (finding recorded in `findings/C03.json`). -/
-theorem verify_redacted_copy (S : SigScheme) (sha256 : List Nat → List Nat) (x : Ids.Ext)
+theorem verify_redacted_copy_of_covered (S : SigScheme) (sha256 : List Nat → List Nat) (x : Ids.Ext)
     (keys : KeyMap) (e' red : Obj) (rr : Rules) (sr : SigRules)
-    (hv : Valid S sha256 keys rr e') (hred : redact rr e' none = .ok red)
+    (hs : Obj.Sorted e') (hv : Valid S sha256 keys rr e') (hred : redact rr e' none = .ok red)
     (servers : List Str) (hsrv : serversToCheck x red sr = .ok servers)
     (hcov : ∀ s ∈ servers, ∃ sigs, Obj.get e' sigKey = some (.obj sigs) ∧ s ∈ Obj.keys sigs) :
     ∃ r, verifyEvent S sha256 x keys red rr sr = .ok r := by
   obtain ⟨hash, hashes, red0, sigs, hch, hh1, hh2, hred0, hsig, hall⟩ := hv
   rw [hred] at hred0; injection hred0 with hred0; subst hred0
   obtain ⟨_, _, _, hgh, hgs⟩ := serversToCheck_redact_fields rr e' red hred
-  obtain ⟨calcd, hcalc⟩ := contentHash_redacted_ok sha256 rr e' red hash hred hch
+  obtain ⟨calcd, hcalc⟩ := contentHash_redacted_ok sha256 rr e' red hash hs hred hch
   refine ⟨_, (verifyEvent_ok_iff S sha256 x keys red rr sr _).mpr
     ⟨red, b64 hash, sigs, servers, calcd, Props.C04.redact_idempotent rr e' red hred, ?_, ?_, hsrv, ?_,
       hcalc, rfl⟩⟩
@@ -168,7 +211,7 @@ theorem servers_of_redacted_copy (x : Ids.Ext) (v : Nat) (e red : Obj) (l l' : L
     · rw [get_filter, isEventKeyRetained_always _ _ (by decide), if_pos rfl,
         get_setVal_eq _ _ _ (by rw [hc0]; simp)] at hcc
       injection hcc with hcc; injection hcc with hcc; subst hcc
-      have hsub := content_get_of_redacted (rulesOf v) ty c0 c hrc
+      have hsub := content_get_of_redacted (rulesOf v) ty c0 c' hrc
         (bs "join_authorised_via_users_server") (by decide) (.str a) ha
       exact Or.inr (Or.inr ⟨hc, c0, a, hc0, hsub, hsp⟩)
 
@@ -282,7 +325,7 @@ theorem verify_strip_mutation (S : SigScheme) (sha256 : List Nat → List Nat)
     rw [hhash] at heq
     exact hpre (hnc heq.symm)
 
-/-- **`verify_kept_mutation`**, reduced to the scheme exactly as in C02: let `e'` be a fresh event
+/-- **`verify_kept_mutation`**, reduced to the scheme exactly as in C02: let `e'` be an event
 hashed and signed by `entity`, and let `e''` be *any* event that still carries `e'`'s `signatures`
 and for which `entity` is among the demanded servers. If `verify_event` accepts `e''` (either
 verdict), then the scheme accepts the signature made over the redacted bytes of `e'` as a signature
@@ -292,7 +335,6 @@ base, which is not proven here. -/
 theorem verify_kept_mutation (S : SigScheme) (hS : S.Lawful) (sha256 : List Nat → List Nat)
     (x : Ids.Ext) (keys : KeyMap) (entity : Str) (kp : KeyPair) (e e' e'' red' red'' : Obj)
     (rr : Rules) (sr : SigRules) (r : Verified)
-    (hfresh : Obj.get e sigKey = none)
     (hsign : hashAndSignEvent S sha256 entity kp e rr = (.ok (), e'))
     (hk : HasKey S keys entity kp)
     (hsigs : Obj.get e'' sigKey = Obj.get e' sigKey)
@@ -319,7 +361,7 @@ theorem verify_kept_mutation (S : SigScheme) (hS : S.Lawful) (sha256 : List Nat 
   injection hs with hs; subst hs
   rw [signatureString, unb64_b64 _ (hS.sig_bytes _ _)] at hraw
   injection hraw with hraw; subst hraw
-  rw [← hsb]
+  rw [hsb]
   exact hverify
 
 /-- Contrapositive: if the scheme rejects the old signature on the new redacted bytes, the changed
@@ -327,7 +369,6 @@ event fails verification. -/
 theorem verify_kept_mutation_rejects (S : SigScheme) (hS : S.Lawful) (sha256 : List Nat → List Nat)
     (x : Ids.Ext) (keys : KeyMap) (entity : Str) (kp : KeyPair) (e e' e'' red' red'' : Obj)
     (rr : Rules) (sr : SigRules)
-    (hfresh : Obj.get e sigKey = none)
     (hsign : hashAndSignEvent S sha256 entity kp e rr = (.ok (), e'))
     (hk : HasKey S keys entity kp)
     (hsigs : Obj.get e'' sigKey = Obj.get e' sigKey)
@@ -338,9 +379,142 @@ theorem verify_kept_mutation_rejects (S : SigScheme) (hS : S.Lawful) (sha256 : L
   cases hres : verifyEvent S sha256 x keys e'' rr sr with
   | error err => exact ⟨err, rfl⟩
   | ok r =>
-    have := verify_kept_mutation S hS sha256 x keys entity kp e e' e'' red' red'' rr sr r hfresh hsign
+    have := verify_kept_mutation S hS sha256 x keys entity kp e e' e'' red' red'' rr sr r hsign
       hk hsigs hred' hred'' servers hsrv hmem hres
     rw [this] at hrej; cases hrej
+
+/-! ### The kept-field clause at full strength and its counterexample -/
+
+/-- The property's sentence "changing a field that redaction keeps makes verification fail" at full
+strength, with the scheme rejecting the old signature on the new bytes as a hypothesis (so that the
+statement does not depend on unforgeability): for every event hashed and signed so that it verifies. -/
+def VerifyKeptMutationStatement : Prop :=
+  ∀ (S : SigScheme), S.Lawful → ∀ (sha256 : List Nat → List Nat) (x : Ids.Ext) (keys : KeyMap)
+    (entity : Str) (kp : KeyPair) (e e' e'' red' red'' : Obj) (v : Nat),
+    Obj.get e sigKey = none →
+    hashAndSignEvent S sha256 entity kp e (rulesOf v) = (.ok (), e') →
+    HasKey S keys entity kp →
+    verifyEvent S sha256 x keys e' (rulesOf v) (sigRulesOf v) = .ok .all →
+    Obj.get e'' sigKey = Obj.get e' sigKey →
+    redact (rulesOf v) e' none = .ok red' → redact (rulesOf v) e'' none = .ok red'' →
+    S.verify (S.pub kp.secret) (canonicalJson red'') (S.sign kp.secret (canonicalJson red')) = false →
+    ∃ err, verifyEvent S sha256 x keys e'' (rulesOf v) (sigRulesOf v) = .error err
+
+set_option maxRecDepth 8192 in
+/-- **Negation witness** (second finding in `findings/C03.json`): of an invite created from a
+third-party invite no server's signature is demanded from room version 3 on (the sender's server is
+exempt and there is no event-ID server), so `verify_event` looks at no signature at all: changing
+`state_key` — kept by redaction, covered by the signature — leaves the result `Ok(Signatures)`.
+`verify_kept_mutation` above is the proven part: it speaks about servers that *are* demanded of the
+changed event. -/
+theorem verify_kept_mutation_statement_false : ¬ VerifyKeptMutationStatement := by
+  intro h
+  have hw : ∃ e' e'' red' red'',
+      hashAndSignEvent Props.C02.toy Ex.sha (bs "b") Ex.kp Ex.thirdPartyInvite (rulesOf 11) = (.ok (), e') ∧
+      verifyEvent Props.C02.toy Ex.sha Ex.ext Ex.keysB e' (rulesOf 11) (sigRulesOf 11) = .ok .all ∧
+      e'' = setVal e' (bs "state_key") (.str (bs "@d:b")) ∧
+      Obj.get e'' sigKey = Obj.get e' sigKey ∧
+      redact (rulesOf 11) e' none = .ok red' ∧ redact (rulesOf 11) e'' none = .ok red'' ∧
+      Props.C02.toy.verify (Props.C02.toy.pub Ex.kp.secret) (canonicalJson red'')
+        (Props.C02.toy.sign Ex.kp.secret (canonicalJson red')) = false ∧
+      verifyEvent Props.C02.toy Ex.sha Ex.ext Ex.keysB e'' (rulesOf 11) (sigRulesOf 11) = .ok .signatures :=
+    ⟨_, _, _, _, rfl, rfl, rfl, rfl, rfl, rfl, by decide, rfl⟩
+  obtain ⟨e', e'', red', red'', h1, h2, _, h4, h5, h6, h7, h8⟩ := hw
+  obtain ⟨err, herr⟩ := h Props.C02.toy Props.C02.toy_lawful Ex.sha Ex.ext Ex.keysB (bs "b") Ex.kp
+    Ex.thirdPartyInvite e' e'' red' red'' 11 rfl h1 ⟨_, rfl, rfl⟩ h2 h4 h5 h6 h7
+  rw [h8] at herr
+  cases herr
+
+/-! ### The redacted-copy clause at full strength, its counterexample, and the proven part -/
+
+/-- The property's sentence "verifying any redacted copy (same room version) still reports valid
+signatures" at full strength: for every event hashed and signed so that it verifies as `All`. -/
+def VerifyRedactedCopyStatement : Prop :=
+  ∀ (S : SigScheme), S.Lawful → ∀ (sha256 : List Nat → List Nat), (∀ m, ∀ b ∈ sha256 m, b < 256) →
+  ∀ (x : Ids.Ext) (keys : KeyMap) (entity : Str) (kp : KeyPair) (e e' red : Obj) (v : Nat),
+    Obj.get e sigKey = none →
+    hashAndSignEvent S sha256 entity kp e (rulesOf v) = (.ok (), e') →
+    HasKey S keys entity kp → Obj.Sorted e' →
+    verifyEvent S sha256 x keys e' (rulesOf v) (sigRulesOf v) = .ok .all →
+    redact (rulesOf v) e' none = .ok red →
+    ∃ r, verifyEvent S sha256 x keys red (rulesOf v) (sigRulesOf v) = .ok r
+
+set_option maxRecDepth 8192 in
+/-- **Negation witness** (finding recorded in `findings/C03.json`): in room version 10 an invite
+created from a third-party invite, signed by the invited user's server only — all the version
+demands — verifies as `All`; its redacted copy has lost `content.third_party_invite` (versions 1–10
+strip it), is no longer recognised as a third-party invite, and fails for want of a signature of the
+sender's server. Room version 11 keeps `third_party_invite.signed` for exactly this reason. -/
+theorem verify_redacted_copy_statement_false : ¬ VerifyRedactedCopyStatement := by
+  intro h
+  have hw : ∃ e' red,
+      hashAndSignEvent Props.C02.toy Ex.sha (bs "b") Ex.kp Ex.thirdPartyInvite (rulesOf 10) = (.ok (), e') ∧
+      Obj.Sorted e' ∧
+      verifyEvent Props.C02.toy Ex.sha Ex.ext Ex.keysB e' (rulesOf 10) (sigRulesOf 10) = .ok .all ∧
+      redact (rulesOf 10) e' none = .ok red ∧
+      verifyEvent Props.C02.toy Ex.sha Ex.ext Ex.keysB red (rulesOf 10) (sigRulesOf 10)
+        = .error (.sign .noSignaturesForEntity) :=
+    ⟨_, _, rfl, by unfold Obj.Sorted; decide, rfl, rfl, rfl⟩
+  obtain ⟨e', red, h1, h2, h3, h4, h5⟩ := hw
+  obtain ⟨r, hr⟩ := h Props.C02.toy Props.C02.toy_lawful Ex.sha Ex.sha_bytes Ex.ext Ex.keysB (bs "b")
+    Ex.kp Ex.thirdPartyInvite e' red 10 rfl h1 ⟨_, rfl, rfl⟩ h2 h3 h4
+  rw [h5] at hr
+  cases hr
+
+/-- **`verify_redacted_copy`, proven part** (the exclusion is exactly the counterexample's class):
+take a fresh event that is *not* an invite created from a third-party invite, hash and sign it with
+the room version's redaction rules; if the signer is the only server the version demands, then the
+redacted copy verifies with valid signatures — `All` or `Signatures`, never an error. Every room
+version number, every event, every key. -/
+theorem verify_redacted_copy_partial (S : SigScheme) (hS : S.Lawful) (sha256 : List Nat → List Nat)
+    (x : Ids.Ext) (keys : KeyMap) (entity : Str) (kp : KeyPair) (e e' red : Obj) (v : Nat)
+    (hfresh : Obj.get e sigKey = none)
+    (hsign : hashAndSignEvent S sha256 entity kp e (rulesOf v) = (.ok (), e'))
+    (hk : HasKey S keys entity kp) (hs : Obj.Sorted e')
+    (h3 : isThirdPartyInvite e' = false)
+    (servers : List Str) (hsrv : serversToCheck x e' (sigRulesOf v) = .ok servers)
+    (honly : ∀ s ∈ servers, s = entity)
+    (hred : redact (rulesOf v) e' none = .ok red) :
+    ∃ r, verifyEvent S sha256 x keys red (rulesOf v) (sigRulesOf v) = .ok r := by
+  obtain ⟨servers', hsrv'⟩ := serversToCheck_redacted_ok x (rulesOf v) (sigRulesOf v) e' red servers hred h3 hsrv
+  obtain ⟨hv, red0, hsig, _⟩ :=
+    valid_after_sign S hS sha256 keys entity kp e e' (rulesOf v) hsign hk (Or.inl hfresh)
+  refine verify_redacted_copy_of_covered S sha256 x keys e' red (rulesOf v) (sigRulesOf v) hs hv hred
+    servers' hsrv' ?_
+  intro s hs'
+  have := servers_of_redacted_copy x v e' red servers servers' hred h3 hsrv hsrv' s hs'
+  refine ⟨_, hsig, ?_⟩
+  rw [honly s this]
+  exact Obj.mem_keys_of_get _ _ _ (Obj.get_insert_self _ _ _)
+
+/-! ### Non-vacuity -/
+
+set_option maxRecDepth 8192 in
+/-- The hypotheses of `verify_after_sign`, `verify_redacted_copy_partial`, `verify_ignores_unsigned`
+hold on a concrete message event with a lawful (toy) scheme, and the conclusions compute: signing
+succeeds, the only demanded server is the signer, the signed event verifies as `All`, its redacted
+copy as `Signatures`. -/
+example : ∃ e' red,
+    hashAndSignEvent Props.C02.toy Ex.sha (bs "s") Ex.kp Ex.message (rulesOf 10) = (.ok (), e') ∧
+    Obj.get Ex.message sigKey = none ∧ HasKey Props.C02.toy Ex.keysS (bs "s") Ex.kp ∧
+    isThirdPartyInvite e' = false ∧
+    serversToCheck Ex.ext e' (sigRulesOf 10) = .ok [bs "s"] ∧
+    verifyEvent Props.C02.toy Ex.sha Ex.ext Ex.keysS e' (rulesOf 10) (sigRulesOf 10) = .ok .all ∧
+    redact (rulesOf 10) e' none = .ok red ∧
+    serversToCheck Ex.ext red (sigRulesOf 10) = .ok [bs "s"] ∧
+    verifyEvent Props.C02.toy Ex.sha Ex.ext Ex.keysS red (rulesOf 10) (sigRulesOf 10) = .ok .signatures :=
+  ⟨_, _, rfl, rfl, ⟨_, rfl, rfl⟩, rfl, rfl, rfl, rfl, rfl, rfl⟩
+
+
+set_option maxRecDepth 8192 in
+/-- `verify_after_sign_chain`: two signers on the message event — hypotheses hold, conclusion computes. -/
+example : ∃ e',
+    FreshSorted Ex.message ∧
+    signAllEvents Props.C02.toy Ex.sha (rulesOf 10) [(bs "t", Ex.kp), (bs "s", Ex.kp)] Ex.message = (.ok (), e') ∧
+    serversToCheck Ex.ext e' (sigRulesOf 10) = .ok [bs "s"] ∧
+    verifyEvent Props.C02.toy Ex.sha Ex.ext (Ex.keysS ++ [(bs "t", [(bs "ed25519:1", Props.C02.toy.pub [1, 2, 3])])])
+      e' (rulesOf 10) (sigRulesOf 10) = .ok .all :=
+  ⟨_, ⟨rfl, by unfold Obj.Sorted; decide, fun hs h => by cases h⟩, rfl, rfl, rfl⟩
 
 #print axioms signatures_table_eq_spec
 #print axioms redaction_table_eq_spec
@@ -349,7 +523,10 @@ theorem verify_kept_mutation_rejects (S : SigScheme) (hS : S.Lawful) (sha256 : L
 #print axioms sign_stores_hash_and_signature
 #print axioms verify_after_sign
 #print axioms verify_after_sign_valid
-#print axioms verify_redacted_copy
+#print axioms verify_after_sign_chain
+#print axioms verify_redacted_copy_of_covered
+#print axioms verify_redacted_copy_partial
+#print axioms verify_redacted_copy_statement_false
 #print axioms servers_of_redacted_copy
 #print axioms verify_ignores_unsigned
 #print axioms verify_needs_every_server
@@ -357,4 +534,5 @@ theorem verify_kept_mutation_rejects (S : SigScheme) (hS : S.Lawful) (sha256 : L
 #print axioms verify_strip_mutation
 #print axioms verify_kept_mutation
 #print axioms verify_kept_mutation_rejects
+#print axioms verify_kept_mutation_statement_false
 end Ruma.Props.C03
